@@ -129,6 +129,14 @@ def shard(ctx):
                 check(ctx, spec, k, overwrite, sc)
             return test
         core.run_hypothesis(ctx, factory, 40 if q else 800, shrink=not q)
+
+        def factory_pkg(ctx):
+            # the `apply --pep_563` command itself on a module that lives in a package and imports a sibling relatively
+            @given(A.source(), st.sampled_from([0, 3]), st.booleans())
+            def test(spec, k, overwrite):
+                c15.cli_apply(ctx, spec, k, overwrite, True, sc, None, pkg=True, pid="C16")
+            return test
+        core.run_hypothesis(ctx, factory_pkg, 8 if q else 150, shrink=not q, salt=6)
     finally:
         sc.close()
 
@@ -140,6 +148,8 @@ def run(ctx):
 def replay(ctx, case):
     sc = tracerun.Scratch("c16-")
     try:
+        if case[0] == "CLIAPPLY":
+            return c15.cli_apply(ctx, case[1], case[2], case[3], True, sc, None, pkg=True, pid="C16")
         check(ctx, case[1], case[2], case[3], sc)
     finally:
         sc.close()
